@@ -36,29 +36,6 @@ Ltac zb :=
   | H : (_ <? _) = false |- _ => apply Z.ltb_ge in H
   end.
 
-Section NeverEarly.
-Variable K : kind.
-Variable retry : bool.
-Variable arm : Z -> option Z.
-Hypothesis arm_lo : forall x a, 0 <= x -> arm x = Some a -> x <= a.
-
-Definition loopk := negb (is_single K).
-
-Definition dl_set (p : pc) : bool :=
-  match p with Top | ReadRem | Enter | Parked | After _ | Chk | Ret RTimeout => true | _ => false end.
-
-Definition InvNE (s : st) : Prop :=
-  0 <= dur s /\
-  (forall t y, res s = Some (RTimeout, t, y) -> tcall s + dur s <= t) /\
-  (pcs s <> Idle -> tcall s <= now s) /\
-  (loopk = true -> dl_set (pcs s) = true -> tcall s + dur s <= dl s) /\
-  (pcs s = Parked \/ pcs s = After VTimeout -> tcall s <= tp s <= now s) /\
-  (pcs s = After VTimeout -> exists a, ar s = Some a /\ tp s + a <= now s) /\
-  (loopk = false -> pcs s = Parked \/ pcs s = After VTimeout -> ar s = arm (dur s)) /\
-  (loopk = false -> pcs s <> ReadDl /\ pcs s <> ReadRem /\ pcs s <> Chk) /\
-  (pcs s = Ret RTimeout ->
-     if loopk then obs s = true /\ dl s <= now s else tcall s + dur s <= now s).
-
 Ltac spec_all :=
   repeat match goal with
   | H : ?A -> _, H' : ?A |- _ => match type of A with Prop => specialize (H H') end
@@ -85,6 +62,29 @@ Ltac leaf :=
 Ltac fin0 :=
   intros; try lia; try discriminate; try tauto;
   try match goal with H : _ \/ _ |- _ => destruct H; discriminate end.
+
+Section NeverEarly.
+Variable K : kind.
+Variable retry : bool.
+Variable arm : Z -> option Z.
+Hypothesis arm_lo : forall x a, 0 <= x -> arm x = Some a -> x <= a.
+
+Definition loopk := negb (is_single K).
+
+Definition dl_set (p : pc) : bool :=
+  match p with Top | ReadRem | Enter | Parked | After _ | Chk | Ret RTimeout => true | _ => false end.
+
+Definition InvNE (s : st) : Prop :=
+  0 <= dur s /\
+  (forall t y, res s = Some (RTimeout, t, y) -> tcall s + dur s <= t) /\
+  (pcs s <> Idle -> tcall s <= now s) /\
+  (loopk = true -> dl_set (pcs s) = true -> tcall s + dur s <= dl s) /\
+  (pcs s = Parked \/ pcs s = After VTimeout -> tcall s <= tp s <= now s) /\
+  (pcs s = After VTimeout -> exists a, ar s = Some a /\ tp s + a <= now s) /\
+  (loopk = false -> pcs s = Parked \/ pcs s = After VTimeout -> ar s = arm (dur s)) /\
+  (loopk = false -> pcs s <> ReadDl /\ pcs s <> ReadRem /\ pcs s <> Chk) /\
+  (pcs s = Ret RTimeout ->
+     if loopk then obs s = true /\ dl s <= now s else tcall s + dur s <= now s).
 
 Lemma invne_init : InvNE init.
 Proof. unfold InvNE, init; cbn. repeat split; fin0. Qed.
